@@ -489,7 +489,7 @@ class C11(Prop):
         pls = [self._payload(rng, ctr, big and i == 0) for i in range(nw)]
         lens = [payload_len(p) for p in pls] or [1]
         faulty = rng.random() < 0.75
-        fatal = rng.random() < 0.18
+        fatal = rng.random() < 0.3
 
         def outcome():
             r = rng.random()
@@ -498,7 +498,7 @@ class C11(Prop):
             if r < 0.75:
                 L = rng.choice(lens)
                 return ['a', max(0, rng.choice([0, 1, L - 1, L, L + 1, L // 2, rng.randint(0, L + 1)]))]
-            if fatal and r > 0.93:
+            if fatal and r > 0.88:
                 return ['e', rng.choice(FATAL)]
             return ['e', rng.choice([errno.EAGAIN, errno.EWOULDBLOCK, errno.EINTR, errno.ENOBUFS])]
 
